@@ -23,12 +23,18 @@ import (
 
 // ECAL literal of every entry of c01Vals (checked against the table in Setup)
 var c01ValLit = []string{"null", "1", `"x"`, "[1]", `{"a":1}`, `"1"`, "2", "true", "[1]", "[2]", `{"a":1}`,
-	`{"a":2}`, `"x1"`, `""`, `"<nil>"`, "[[1]]", "[]", "{}", "false", `"[1]"`, "", "0", "-0",
-	`{"a":{"b":1}}`, `[{"a":1}]`, `{"a":[1]}`, `{"a":{"b":1}}`}
+	`{"a":2}`, `"x1"`, `""`, `"<nil>"`, "[[1]]", "del([1],0)", "{}", "false", `"[1]"`, "", "0", "-0",
+	`{"a":{"b":1}}`, `[{"a":1}]`, `{"a":[1]}`, `{"a":{"b":1}}`,
+	`["1"]`, `{"a":"1"}`, `[1,2]`, `["1 2"]`, `[]`, "", "", `"X"`, `[[]]`,
+	`["changed3"]`, `{"a":1,"changed":1}`}
+
+// values without an ECAL literal: NaN, a nil map, a Go int
+var c01NoLiteral = map[int]bool{c01NaN: true, 32: true, 33: true}
 
 // the value indexes usable in ECAL cases (filled in Setup: literal evaluates to the table value)
 var c01ECALVals []int
 
+var c01EventsStarted bool
 var c01MarkMu sync.Mutex
 var c01Marks map[int][]string
 
@@ -44,11 +50,22 @@ func c01ECALSetup() {
 		return nil, nil
 	})
 	for i, lit := range c01ValLit {
-		v, err := evalProgram(lit, newGlobalScope(), &memLog{})
-		if err == nil && reflect.DeepEqual(v, c01Vals[i]) {
-			c01ECALVals = append(c01ECALVals, i)
+		if c01NoLiteral[i] {
+			continue
 		}
+		// the literal must give exactly the table value, nil-ness of lists included
+		v, err := evalProgram(lit, newGlobalScope(), &memLog{})
+		if err != nil || !(reflect.DeepEqual(v, c01Vals[i]) || (i == c01NegZero || i == c01PosZero)) {
+			panic(fmt.Sprintf("C01: ECAL literal %v of value %d evaluates to %#v (%v), table has %#v", lit, i, v, err, c01Vals[i]))
+		}
+		c01ECALVals = append(c01ECALVals, i)
 	}
+	registerX("phase", func(args []interface{}) (interface{}, error) {
+		c01MarkMu.Lock()
+		c01EventsStarted = true
+		c01MarkMu.Unlock()
+		return nil, nil
+	})
 }
 
 func c01TokLit(tok string) string {
@@ -117,6 +134,8 @@ func c01Program(c *c01Case) string {
 	for _, i := range c.failing {
 		failing[i] = true
 	}
+	// D2: list/map patterns come from variables which are changed after the declarations
+	var mutations []string
 	for ri, r := range c.rules {
 		attrs := []string{"kindmatch " + c01StrList(r.kinds)}
 		if r.scopeNil {
@@ -126,8 +145,19 @@ func c01Program(c *c01Case) string {
 		}
 		if !r.stateNil {
 			var kvs []string
-			for _, kv := range r.state {
-				kvs = append(kvs, c01Key(kv.key)+" : "+c01TokLit(kv.tok))
+			for ki, kv := range r.state {
+				lit := c01TokLit(kv.tok)
+				if _, changes := c01Changed(c01TokVal(kv.tok), 0); c.mutate && kv.tok[0] == 'D' && changes {
+					v := fmt.Sprintf("pv%dk%d", ri, ki)
+					fmt.Fprintf(&sb, "%s := %s\n", v, lit)
+					if lit[0] == '[' {
+						mutations = append(mutations, fmt.Sprintf("%s[0] := \"changed%d\"", v, c01TokClass(kv.tok)))
+					} else {
+						mutations = append(mutations, v+"[\"changed\"] := 1")
+					}
+					lit = v
+				}
+				kvs = append(kvs, c01Key(kv.key)+" : "+lit)
 			}
 			attrs = append(attrs, "statematch {"+strings.Join(kvs, ", ")+"}")
 		}
@@ -148,7 +178,11 @@ func c01Program(c *c01Case) string {
 				if e.ownScope {
 					args = append(args, c01ScopeLit(e.scope, ei))
 				}
-				body += fmt.Sprintf("  if event.state[\"#i\"] == %d {\n    addEvent(%s)\n  }\n", e.parentEv, strings.Join(args, ", "))
+				call := "addEvent(" + strings.Join(args, ", ") + ")"
+				if e.detached { // inside a loop the instance state is fresh: no parent monitor
+					call = "for q in [1] {\n      " + call + "\n    }"
+				}
+				body += fmt.Sprintf("  if event.state[\"#i\"] == %d {\n    %s\n  }\n", e.parentEv, call)
 			}
 		}
 		if failing[ri] {
@@ -156,6 +190,10 @@ func c01Program(c *c01Case) string {
 		}
 		fmt.Fprintf(&sb, "sink %s\n  %s\n{\n%s}\n", r.name, strings.Join(attrs, ",\n  "), body)
 	}
+	for _, m := range mutations {
+		sb.WriteString(m + "\n")
+	}
+	sb.WriteString("x.phase()\n")
 	for i, e := range c.events {
 		if e.child {
 			continue
@@ -176,6 +214,7 @@ func c01Program(c *c01Case) string {
 func c01RunECAL(c *c01Case) string {
 	c01MarkMu.Lock()
 	c01Marks = map[int][]string{}
+	c01EventsStarted = false
 	c01MarkMu.Unlock()
 	src := c01Program(c)
 	erp := interpreter.NewECALRuntimeProvider("c01", nil, &memLog{})
@@ -198,11 +237,14 @@ func c01RunECAL(c *c01Case) string {
 		return "ERR validate " + oneLine(err.Error())
 	}
 	if _, err = ast.Runtime.Eval(newGlobalScope(), make(map[string]interface{}), erp.NewThreadID()); err != nil {
-		if strings.Contains(err.Error(), "Cannot add rule") || strings.Contains(err.Error(), "Statematch key") {
+		c01MarkMu.Lock()
+		started := c01EventsStarted
+		c01MarkMu.Unlock()
+		if !started { // an evaluation error before the first event: a declaration was refused, the program stops there
 			if !proc.Stopped() {
 				proc.Finish()
 			}
-			return "ERR-SINK" // a sink declaration was refused: the program stops there
+			return "ERR-SINK"
 		}
 		return "ERR eval " + oneLine(err.Error())
 	}
@@ -317,17 +359,62 @@ func c01GenECAL(g *Gen, emit func(c *c01Case, what string)) {
 		}
 	}
 
+	// a sink adds an event from inside a loop: the instance state is fresh, the monitor of the cascade is lost
+	for i, sc := range [][]c01KV{{{"", "1"}, {"data.write", "0"}}, {{"data", "1"}, {"data.write", "0"}}, {{"", "1"}}} {
+		emit(&c01Case{level: "e", mode: []string{"w", "a"}[i%2], workers: 2 + i, rules: casc, scope: sc, events: []c01Event{
+			ev("e", "core.x", nil),
+			{name: "d1", kind: []string{"child", "a"}, child: true, parentEv: 0, parentRule: 0, detached: true},
+			child("c1", "child.b", 0, 0, false, nil),
+			{name: "d2", kind: []string{"child", "c"}, child: true, parentEv: 2, parentRule: 3, detached: true},
+		}}, "ecal-sink-adds-event-from-loop")
+	}
+	// the pattern of a sink is the value at the time of its declaration: list/map variables change afterwards
+	{
+		rs := []c01Rule{
+			mk("l1", []string{"a"}, nil, c01St("k", V(3)), false), mk("l2", []string{"a"}, nil, c01St("k", V(8)), false),
+			mk("m1", []string{"a"}, nil, c01St("k", V(4)), false), mk("n1", []string{"a"}, nil, c01St("k", V(15)), false),
+		}
+		es := []c01Event{ev("e", "a", c01St("k", V(3))), ev("e", "a", c01St("k", V(4))), ev("e", "a", c01St("k", V(15))),
+			ev("e", "a", c01St("k", V(9))), ev("e", "a", nil), ev("e", "a", c01St("k", V(36))), ev("e", "a", c01St("k", V(37)))}
+		emit(&c01Case{level: "e", mode: "w", workers: 1, rules: rs, scope: []c01KV{{"", "1"}}, events: es, mutate: true}, "ecal-pattern-variable-changed")
+		emit(&c01Case{level: "e", mode: "a", workers: 3, rules: rs, scope: []c01KV{{"", "1"}}, events: es, mutate: true}, "ecal-pattern-variable-changed")
+	}
+	// the two empty lists of ECAL (`[]` is a nil slice, del([1],0) an empty one), nested too; same text / other content
+	{
+		var rs []c01Rule
+		var es []c01Event
+		for j, vi := range []int{16, 31, 35, 17, 3, 27, 4, 28, 29, 30, 2, 34} {
+			rs = append(rs, mk(fmt.Sprintf("v%02d", j), []string{"a"}, nil, c01St("k", pat(V(vi))), false))
+			es = append(es, ev("e", "a", c01St("k", V(vi))))
+		}
+		emit(&c01Case{level: "e", mode: "w", workers: 2, rules: rs, scope: []c01KV{{"", "1"}}, events: es}, "ecal-value-equality")
+	}
+	// exact strings at ECAL level
+	{
+		r1 := mk("r1", []string{"a.b", "é.*"}, []string{"p.q"}, c01St("k", "A"), false)
+		r2 := mk("R1", []string{"A.b", "a .b"}, []string{"P.q"}, c01St("K", "A"), false)
+		r3 := mk("sup", []string{"*.*"}, nil, nil, true)
+		r3.supp = []string{"R1"}
+		var es []c01Event
+		for _, k := range []string{"a.b", "A.b", "a .b", "é.x", "É.x"} {
+			es = append(es, ev("e", k, c01St("k", V(2))), ev("e", k, c01St("K", V(2))))
+		}
+		for i, sc := range [][]c01KV{{{"p.q", "1"}}, {{"P.q", "1"}}, {{"p", "1"}, {"P", "1"}}} {
+			emit(&c01Case{level: "e", mode: "w", workers: 1 + i, rules: []c01Rule{r1, r2, r3}, scope: sc, events: es}, "ecal-exact-strings")
+		}
+	}
+
 	n := 250
 	if g.Thorough() {
 		n = 6000
 	}
-	segs := []string{"a", "b", "c", "*", "", "a b"}
-	keys := []string{"k", "l", ""}
-	paths := []string{"", "p", "p.q", "p.q.r", "z", "p.z", ".", "p."}
+	segs := []string{"a", "b", "c", "*", "", "a b", "A", "é"}
+	keys := []string{"k", "l", "", "K"}
+	paths := []string{"", "p", "p.q", "p.q.r", "z", "p.z", ".", "p.", "P", "p.Q"}
 	rndKind := func(depth int) string {
 		var s []string
 		for i := 0; i < depth; i++ {
-			s = append(s, segs[g.R.Intn(4+g.R.Intn(3))])
+			s = append(s, segs[g.R.Intn(4+g.R.Intn(len(segs)-3))])
 		}
 		return strings.Join(s, ".")
 	}
@@ -430,11 +517,14 @@ func c01GenECAL(g *Gen, emit func(c *c01Case, what string)) {
 					c.failing = append(c.failing, j)
 				}
 			}
+		case 3:
+			what = "ecal-random-pattern-variable-changed"
+			c.mutate = true
 		case 2: // sinks that add events
 			what = "ecal-random-sink-adds-event"
 			roots := len(c.events)
 			for k, m := 0, 1+g.R.Intn(3); k < m; k++ {
-				e := c01Event{name: "c", child: true, parentEv: g.R.Intn(roots), parentRule: g.R.Intn(len(c.rules))}
+				e := c01Event{name: "c", child: true, parentEv: g.R.Intn(roots), parentRule: g.R.Intn(len(c.rules)), detached: g.R.Intn(4) == 0}
 				for _, s := range strings.Split(kindsUsed[g.R.Intn(len(kindsUsed))], ".") {
 					if s == "*" {
 						s = "a"
